@@ -71,6 +71,7 @@ func runC07(c *Ctx) {
 	c.Rule("C07.O3", "E4", "chunked=true implies delete(Content-Length); parseTrailer returns at once unless chunked; trailer names Transfer-Encoding, Trailer, Content-Length are rejected in both the single and the comma-separated form", 3)
 	c.Rule("C07.O5", "E4,E7", "every capture of a header or trailer value (store of string(data[start:i]) to Parser.headerValue) is on the c == CR edge: the four value states agree with net/http's line-end extent", 1)
 	c.Rule("C07.O6", "E7", "both trailer value states check the delivered name off the declared set before OnTrailerHeader", 1)
+	c.Rule("C07.O7", "E4", "message-boundary hygiene: the framing decision (parseTransferEncoding, parseContentLength, parseTrailer, in this order) dominates every entry into the end-of-head state; parseContentLength assigns the length on every successful path; handleMessage resets chunked, header and trailer", 3)
 	c.Rule("C07.O4", "E8", "request.Close: major<1 -> true; 1.0 -> hasClose || !keepAlive; else hasClose, with hasClose / keepAlive set by the Connection values \"close\" / \"keep-alive\"", 1)
 
 	// ------------------------------------------------------------------ O1
@@ -283,6 +284,90 @@ func runC07(c *Ctx) {
 			bad = fmt.Sprintf("expected OnTrailerHeader in both trailer value states, found %d", n)
 		}
 		c.Cond(bad == "", "C07.O6", fnKey(c.P, parse, "every delivered trailer is checked off"), c.FnPos(parse), fmt.Sprintf("%d delivery sites dominated by delete(p.trailer, key)", n), bad)
+	}
+	// ------------------------------------------------------------------ O7
+	if parse := c.Fn("C07.O7", "(*nbhttp.Parser).Parse"); parse != nil {
+		fi := c.P.Info(parse)
+		over := c.stateConsts()["stateHeaderOverLF"]
+		n := 0
+		bad := ""
+		for _, cs := range c.P.CallsNamed(parse, "(*nbhttp.Parser).nextState") {
+			if k, ok := ir.ConstInt(cs.Common.Args[1]); !ok || k != over {
+				continue
+			}
+			n++
+			var prev ssa.Instruction
+			for _, name := range []string{"parseTransferEncoding", "parseContentLength", "parseTrailer"} {
+				var found ssa.Instruction
+				for _, d := range c.P.CallsNamed(parse, "(*nbhttp.Parser)."+name) {
+					if fi.Dominates(d.In, cs.In) && (prev == nil || fi.Dominates(prev, d.In)) {
+						found = d.In
+					}
+				}
+				if found == nil {
+					bad = "the head can end at " + c.Pos(cs.In) + " without " + name + " having run (in order): the message is framed with what the previous message left in the parser"
+					break
+				}
+				prev = found
+			}
+		}
+		if n == 0 {
+			bad = "no transition into the end-of-head state found"
+		}
+		c.Cond(bad == "", "C07.O7", fnKey(c.P, parse, "framing decided for every message"), c.FnPos(parse), fmt.Sprintf("%d end-of-head transition(s) dominated by TE, CL, Trailer in order", n), bad)
+	}
+	if pcl := c.Fn("C07.O7", "(*nbhttp.Parser).parseContentLength"); pcl != nil {
+		fi := c.P.Info(pcl)
+		isStore := func(in ssa.Instruction) bool {
+			st, ok := in.(*ssa.Store)
+			if !ok {
+				return false
+			}
+			fa, ok := st.Addr.(*ssa.FieldAddr)
+			return ok && c.P.FieldKey(fa) == "nbhttp.Parser.contentLength"
+		}
+		bad := ""
+		first := pcl.Blocks[0].Instrs[0]
+		vis, _ := fi.Reach([]ssa.Instruction{first}, isStore)
+		nret := 0
+		for _, r := range fi.Returns() {
+			if !ir.IsNilConst(ir.RetVals(r)[0]) {
+				continue
+			}
+			nret++
+			if vis[r] && !isStore(first) {
+				bad = "parseContentLength can succeed (return at " + c.Pos(r) + ") without assigning Parser.contentLength: the previous message's length frames this one"
+			}
+		}
+		if nret == 0 {
+			bad = "no successful return found"
+		}
+		c.Cond(bad == "", "C07.O7", fnKey(c.P, pcl, "length assigned on every successful path"), c.FnPos(pcl), fmt.Sprintf("%d successful return(s)", nret), bad)
+	}
+	if hm := c.Fn("C07.O7", "(*nbhttp.Parser).handleMessage"); hm != nil {
+		reset := map[string]bool{}
+		for _, b := range hm.Blocks {
+			for _, in := range b.Instrs {
+				st, ok := in.(*ssa.Store)
+				if !ok {
+					continue
+				}
+				fa, ok := st.Addr.(*ssa.FieldAddr)
+				if !ok || b != hm.Blocks[0] {
+					continue
+				}
+				if k, isK := st.Val.(*ssa.Const); isK && (k.IsNil() || (k.Value != nil && k.Value.String() == "false")) {
+					reset[c.P.FieldKey(fa)] = true
+				}
+			}
+		}
+		var missing []string
+		for _, f := range []string{"nbhttp.Parser.chunked", "nbhttp.Parser.header", "nbhttp.Parser.trailer"} {
+			if !reset[f] {
+				missing = append(missing, f)
+			}
+		}
+		c.Cond(len(missing) == 0, "C07.O7", fnKey(c.P, hm, "per-message state reset"), c.FnPos(hm), "chunked=false, header=nil, trailer=nil unconditionally", fmt.Sprintf("handleMessage does not reset %v: the next message on the connection inherits it", missing))
 	}
 }
 
